@@ -276,8 +276,11 @@ func runC16(c *Ctx) {
 				// passes the library's own check with the derived factor and fails with any other
 				other := alphaFound
 				other[r.Intn(32)] ^= byte(1 + r.Intn(255))
-				c.Check("blinding_check_consistent", encrypted_leaseset.VerifyBlindedSignature(bd, d, alphaFound) && !encrypted_leaseset.VerifyBlindedSignature(bd, d, other),
-					"VerifyBlindedSignature", [][]byte{ob}, "", "derived factor rejected or another factor accepted")
+				consistent, pan := calm(func() bool {
+					return encrypted_leaseset.VerifyBlindedSignature(bd, d, alphaFound) && !encrypted_leaseset.VerifyBlindedSignature(bd, d, other)
+				})
+				c.Check("blinding_check_consistent", consistent,
+					"VerifyBlindedSignature", [][]byte{ob, alphaFound[:]}, "", "derived factor rejected or another factor accepted "+pan)
 				// deterministic
 				bd2, _ := encrypted_leaseset.CreateBlindedDestination(d, secret, t)
 				b2, _ := bd2.Bytes()
